@@ -104,10 +104,20 @@ impl DiscriminantType {
         }
     }
 
-    /// Creates the arms of a `match` expression which maps each variant to its discriminant value: the
-    /// written expression, or the last written expression plus the distance from it, or the position.
-    pub(crate) fn discriminant_arms(data: &DataEnum) -> TokenStream {
+    /// The integer type in which discriminant values are computed and compared: it holds every value of `self`, so
+    /// adding a distance to a written discriminant cannot overflow.
+    #[inline]
+    pub(crate) fn wide(&self) -> Ident {
+        Ident::new(if let Self::U128 = self { "u128" } else { "i128" }, Span::call_site())
+    }
+
+    /// Creates the arms of a `match` expression which maps each variant to its discriminant value (as a value of
+    /// the type `self.wide()`): the written expression, or the last written expression plus the distance from it,
+    /// or the position.
+    pub(crate) fn discriminant_arms(&self, data: &DataEnum) -> TokenStream {
         let mut arms_token_stream = TokenStream::new();
+
+        let wide = self.wide();
 
         let mut base: Option<&Expr> = None;
         let mut offset = 0usize;
@@ -122,8 +132,11 @@ impl DiscriminantType {
             let offset_literal = Literal::usize_unsuffixed(offset);
 
             let value = match base {
-                Some(exp) if offset == 0 => quote!(#exp),
-                Some(exp) => quote!((#exp) + #offset_literal),
+                Some(exp) => quote!({
+                    let educe__discriminant: ::core::primitive::#self = #exp;
+
+                    educe__discriminant as ::core::primitive::#wide + #offset_literal
+                }),
                 None => quote!(#offset_literal),
             };
 
